@@ -63,6 +63,12 @@ def sense_of(o):
 
 def sense_bytes(kind):
     k, asc, ascq, desc = sense_of(kind)
+    if kind.endswith(":u"):           # a response code outside 70h..73h (vendor specific 7Fh): still a CHECK CONDITION
+        s = bytearray(18)
+        s[0], s[2], s[7], s[12], s[13] = 0x7F, k, 10, asc, ascq
+        return bytes(s)
+    if kind.endswith(":z"):           # an all-zero sense buffer
+        return bytes(18)
     if desc:
         s = bytearray(8)
         s[0], s[1], s[2], s[3] = 0x72, k, asc, ascq
@@ -231,7 +237,7 @@ def gen_hists(seed, count):
     for t in ("sg", "iscsi"):
         for k in range(16):
             for asc, ascq in ((0, 0), (0, 0x1D), (0x29, 0), (0x04, 0x01), (0x24, 0), (0x3F, 0x0E), (0x5D, 0), (0x0B, 0x55), (0x80, 0), (0xFF, 0xFF)):
-                for fmt in ("f", "d"):
+                for fmt in ("f", "d") + (("u", "z") if (asc, ascq) in ((0, 0), (0x29, 0)) else ()):
                     m = ("testunitready", "readcapacity10", "raw_execute", "inquiry")[(k + asc + ascq) % 4]
                     hists.append(dict(t=t, steps=[dict(m=m, outcomes=["cc:%d:%d:%d:%s" % (k, asc, ascq, fmt), "good"], fill="zeros", seed=1)]))
     fam = ["readcapacity16", "getlbastatus", "reporttargetportgroups", "reportpriority"]
@@ -271,7 +277,8 @@ def oracle_step(t, st, r, aspects):
             return "status", "%s raised %s although the target reported GOOD" % (st["m"], o)
         if is_cc(first) and st["m"] not in ("atapassthrough12", "atapassthrough16"):
             k, asc, ascq, _d = sense_of(first)
-            if o[0] != "cc" or o[1] != asc or o[2] != ascq:
+            undecodable = first.endswith(":u") or first.endswith(":z")
+            if o[0] != "cc" or (not undecodable and (o[1] != asc or o[2] != ascq)):
                 return "status", "%s: CHECK CONDITION %02x/%02x surfaced as %s" % (st["m"], asc, ascq, o)
         if first in ("busy", "conflict", "oserror") and o[0] != "exn":
             return "status", "%s: %s surfaced as %s" % (st["m"], first, o)
